@@ -51,7 +51,7 @@ func runC11(c *eng.Ctx) {
 		var addFunc, store *eng.GNode
 		for _, n := range g.Nodes {
 			if len(g.CallsAt(n, func(o types.Object, _ *ast.CallExpr) bool {
-				return o != nil && (o.Name() == "AddFunc" || o.Name() == "AddJob" || o.Name() == "Schedule")
+				return o != nil && (nameOf(o) == "AddFunc" || nameOf(o) == "AddJob" || nameOf(o) == "Schedule")
 			})) > 0 {
 				addFunc = n
 			}
@@ -137,7 +137,7 @@ func runC11(c *eng.Ctx) {
 		for _, n := range g.Nodes {
 			if len(g.CallsAt(n, func(o types.Object, _ *ast.CallExpr) bool {
 				fn, ok := o.(*types.Func)
-				return ok && fn.Name() == "Remove" && fn.Pkg() != nil && fn.Pkg().Path() != full(pkgSched)
+				return ok && nameOf(fn) == "Remove" && fn.Pkg() != nil && fn.Pkg().Path() != full(pkgSched)
 			})) > 0 {
 				cronRemove = n
 			}
